@@ -772,4 +772,26 @@ theorem settle_cur (s : State) (h : Mid s) (x : Nat) (hx : (settle s).cur = some
         right; grind
       · simp at hx
 
+theorem collect_running (st : Nat → St) (cs : List Nat) (i : Nat) :
+    (collect st cs).1 i = St.running ↔ st i = St.running := by
+  have := (collect_spec cs st i).1
+  unfold Hit at this
+  grind [wakeable]
+
+theorem last_of_suffix {α} (X r D : List α) (c : α) (hr : r ≠ []) (h : X ++ [c] = D ++ r) : c ∈ r := by
+  obtain ⟨r', l, rfl⟩ : ∃ r' l, r = r' ++ [l] :=
+    ⟨r.dropLast, r.getLast hr, (List.dropLast_concat_getLast hr).symm⟩
+  rw [← List.append_assoc] at h
+  have := List.append_inj_right' h rfl
+  simp at this
+  subst this
+  simp
+
+theorem settle_from_upd (m s : State) (c : Nat) (v : St) (hm : Mid m) (hst : m.st = upd s.st c v)
+    (hv1 : v ≠ St.stacked) (hv2 : v ≠ St.ready) (x : Nat) (hx : (settle m).cur = some x) :
+    s.st x = St.stacked ∨ s.st x = St.ready := by
+  have := settle_cur m hm x hx
+  rw [hst] at this
+  grind [upd_apply]
+
 end Cocls.Exec
